@@ -52,7 +52,7 @@ Start == /\ phase = "start" /\ Mode = "map"
 \* one more entry of the top layer; codes are added in increasing order
 Add == /\ phase = "map"
        /\ Total < (IF Len(chain) = 1 THEN MaxTop(sp) ELSE MaxTotal)
-       /\ \E c \in CodesOf[sp], v \in Values(fam) :
+       /\ \E c \in CodesOf[sp], v \in Values(fam, sp) :
              /\ \A e \in chain[1].map : SeqLess(e.c, c)
              /\ chain' = [chain EXCEPT ![1].map = @ \cup {[c |-> c, v |-> v]}]
        /\ UNCHANGED <<phase, origin, sp, fam, file, stream, file2>>
